@@ -1,7 +1,9 @@
 /-
-  C18 — a panic in any user expression reaches the caller (sequential and thread-spawning macros).
+  C18 — a panic in any user expression reaches the caller (sequential and thread-spawning macros; the async macros
+  under every schedule: last section).
 -/
 import JoinModel.Props.Common
+import JoinModel.AsyncSpec
 namespace JoinModel.Props.C18
 open JoinModel JoinModel.Props
 
@@ -120,5 +122,53 @@ theorem generated_panics (σ : World) (parent : Option String) (p : Input) (kind
     (hs : Supported p kind) (hgen : gen p kind = .ok code) (s : Site) :
     (evalCode σ parent code).res = .panic s ↔ (specRun σ parent p kind).res = .panic s := by
   rw [generated_eq_reference σ parent p kind code hs hgen]
+
+/-! ### async macros, every schedule -/
+
+/-- **A panicking chain reaches the caller, whatever the schedule** (non-try async macros).  If, in step `k`, the block
+    captures succeed and some active chain panics, then for every schedule of gate openings that ends with all gates
+    open the future completes with the panic of one of step `k`'s panicking chains — never with a value — and nothing of
+    a later step (nor the handler, whatever follows the loop: `kont`) has run. -/
+theorem async_chain_panic_every_schedule (c : SpecCfg) (pend : Pend) (rem k : Nat) (vals : List (Option Value))
+    (capss : List (List Value)) (htry : c.kind.isTry = false)
+    (hc : (specCapsAll c k (visibleSpec c.names vals) (c.active k)).res = .ok capss)
+    (bc : Nat × List Value) (hbc : bc ∈ (c.active k).zip capss) (n : Nat)
+    (hp : (taskOf c pend k vals (visibleSpec c.names vals) bc).out = .panic n)
+    {ρ' : Type} (kont : Res Fin → List MEv × Plan MEv (UR Value) ρ') (sm : Res Fin → ρ') (gs : List Gates) :
+    (∀ e ∈ (((planLoop c pend rem k vals).2.bind kont sm).2.run (gs ++ [allOpen])).1, e.step = some k) ∧
+    ∃ m, (((planLoop c pend rem k vals).2.bind kont sm).2.run (gs ++ [allOpen])).2 = .done (sm (.panic (.user m))) ∧
+      UR.panic m ∈ ((c.active k).zip capss).map (fun bc => (taskOf c pend k vals (visibleSpec c.names vals) bc).out) := by
+  have hform : ∃ pre next, ((planLoop c pend rem k vals).2.bind kont sm).2 =
+      .step (stopOf c) (fun a => sm (onStopOf a))
+        (((c.active k).zip capss).map (taskOf c pend k vals (visibleSpec c.names vals))) pre next := by
+    cases rem with
+    | zero => unfold planLoop; simp only [hc, Plan.bind]; exact ⟨_, _, rfl⟩
+    | succ rem => unfold planLoop; simp only [hc, Plan.bind]; exact ⟨_, _, rfl⟩
+  obtain ⟨pre, next, hf⟩ := hform
+  rw [hf]
+  have hstop : stopOf c (taskOf c pend k vals (visibleSpec c.names vals) bc).out = true := by
+    rw [hp]; simp [stopOf, isPanicUR]
+  have hev : ∀ t ∈ ((c.active k).zip capss).map (taskOf c pend k vals (visibleSpec c.names vals)), ∀ e ∈ t.allEvs,
+      e.step = some k := by
+    intro t ht e he
+    obtain ⟨bc', _, rfl⟩ := List.mem_map.mp ht
+    exact taskOf_step c pend k vals _ bc' e he
+  obtain ⟨h1, h2⟩ := Plan.run_stopper (fun e : MEv => e.step = some k) (stopOf c) (fun a => sm (onStopOf a)) pre next
+    ((((c.active k).zip capss).map (taskOf c pend k vals (visibleSpec c.names vals))).map (·.out))
+    ⟨_, List.mem_map_of_mem (List.mem_map_of_mem hbc), hstop⟩ (gs ++ [allOpen]) _ rfl hev
+  refine ⟨h1, ?_⟩
+  rcases h2 with ⟨ts', h2⟩ | ⟨a, h2, h3, h4⟩
+  · -- polled with every gate open the future is complete: it cannot still be in the step
+    exfalso
+    have := Plan.run_allOpen_done gs (.step (stopOf c) (fun a => sm (onStopOf a))
+      (((c.active k).zip capss).map (taskOf c pend k vals (visibleSpec c.names vals))) pre next)
+    rw [h2] at this
+    simp [Plan.isDone] at this
+  · -- in a non-try macro only a panic stops a step
+    cases a with
+    | ok v => simp [stopOf, isPanicUR, htry, isFailUR] at h3
+    | panic m =>
+      refine ⟨m, by rw [h2]; rfl, ?_⟩
+      simpa [List.map_map] using h4
 
 end JoinModel.Props.C18
